@@ -4,7 +4,9 @@ import (
 	"encoding/json"
 	"fmt"
 	"math"
+	"runtime"
 	"sync"
+	"sync/atomic"
 	"time"
 
 	libaudit "github.com/elastic/go-libaudit/v2"
@@ -246,10 +248,115 @@ func c19ConcurrentClose(c *mon.Ctx) {
 	c.Require("concurrent_close_schedules", 100)
 }
 
+// c19CloseStorm: the Close flush beside real, unscheduled pushers (the scheduler above only interleaves at the
+// yield points BETWEEN the Reassembler's locked steps; a flush that takes more than one locked step is reached
+// only by free-running goroutines).  K never-completing events are buffered, then P goroutines push lower,
+// descending, never-completing sequences while one goroutine calls Close.  Once every call has returned, each of
+// the K events buffered before Close was invoked has been delivered exactly once, and nothing more than once.
+type c19StormStream struct {
+	mu   sync.Mutex
+	seen map[*auparse.AuditMessage]int
+}
+
+func (s *c19StormStream) ReassemblyComplete(msgs []*auparse.AuditMessage) {
+	s.mu.Lock()
+	for _, m := range msgs {
+		s.seen[m]++
+	}
+	s.mu.Unlock()
+}
+func (s *c19StormStream) EventsLost(int) {}
+
+func c19CloseStorm(c *mon.Ctx) {
+	ev := c.Counter("evaluations")
+	iters := c.Pick(4000, 400000)
+	var overlapped int64
+	for it := 0; it < iters && c.Violations() == 0; it++ {
+		r := c.Rand(7, uint64(it))
+		st := &c19StormStream{seen: map[*auparse.AuditMessage]int{}}
+		ra, err := libaudit.NewReassembler(10000, time.Hour, st)
+		if err != nil {
+			c.Violation("new-error", "NewReassembler returned "+err.Error(), nil)
+			return
+		}
+		base := mon.Pick(r, []uint32{5000, 0xFFFFFF00, 1 << 24})
+		K, P, per := r.Range(1, 6), r.Range(1, 4), r.Range(1, 12)
+		mk := func(seq uint32) *auparse.AuditMessage {
+			return &auparse.AuditMessage{RecordType: 1300, Sequence: seq, Timestamp: time.Unix(1700000000, 0), RawData: "x"}
+		}
+		var pre []*auparse.AuditMessage
+		for i := 0; i < K; i++ {
+			m := mk(base + 1000 + uint32(i))
+			pre = append(pre, m)
+			ra.PushMessage(m)
+		}
+		var wg sync.WaitGroup
+		start := make(chan struct{})
+		var pushed [][]*auparse.AuditMessage
+		var closeErr error
+		var okPushesAfterStart int64
+		for g := 0; g < P; g++ {
+			var mine []*auparse.AuditMessage
+			for j := 0; j < per; j++ {
+				mine = append(mine, mk(base+999-uint32(g*per+j)))
+			}
+			pushed = append(pushed, mine)
+			wg.Add(1)
+			go func(mine []*auparse.AuditMessage) {
+				defer wg.Done()
+				<-start
+				for _, m := range mine {
+					ra.PushMessage(m)
+					atomic.AddInt64(&okPushesAfterStart, 1)
+				}
+			}(mine)
+		}
+		wg.Add(1)
+		go func() {
+			defer wg.Done()
+			<-start
+			for i := r.Intn(3); i > 0; i-- {
+				runtime.Gosched()
+			}
+			closeErr = ra.Close()
+		}()
+		close(start)
+		wg.Wait()
+		ev.Add(1)
+		k := map[string]any{"kind": "close-storm", "buffered": K, "pushers": P, "pushes_each": per, "base": base, "iteration": it}
+		if closeErr != nil {
+			c.Violation("close:first-close-error", fmt.Sprintf("the only Close returned %v", closeErr), k)
+		}
+		st.mu.Lock()
+		for i, m := range pre {
+			if st.seen[m] != 1 {
+				c.Violation("close:storm-buffered-not-flushed", fmt.Sprintf("event seq=%d (#%d of %d buffered before Close was invoked) was delivered %d times once Close and %d concurrent pushers of lower sequences had returned (exactly once)", m.Sequence, i+1, K, st.seen[m], P), k)
+				break
+			}
+		}
+		nd := 0
+		for _, mine := range pushed {
+			for _, m := range mine {
+				if st.seen[m] > 1 {
+					c.Violation("close:storm-delivered-twice", fmt.Sprintf("message seq=%d pushed beside Close was delivered %d times", m.Sequence, st.seen[m]), k)
+				}
+				nd += st.seen[m]
+			}
+		}
+		st.mu.Unlock()
+		if nd > 0 && nd < P*per {
+			overlapped++ // some concurrent pushes made it into the flush and some did not: the calls really overlapped
+		}
+	}
+	c.Add("close_storm_rounds", int64(iters))
+	c.Add("close_storm_rounds_where_pushes_straddled_the_flush", overlapped)
+	c.Require("close_storm_rounds", 100)
+}
+
 func init() {
 	register(&mon.CheckSpec{
 		ID: "C19", Level: "exploration",
-		Rule: "cases = seeded histories of <= 12 ops (pushes of completing / non-completing / EOE records, real sleeps drawn from {0, T/2, 2T, 5T}, Maintain) followed by Close and 0-3 further Maintain/Close calls, for timeout T in {-2^63 ns, -1s, 0, 2ms, 5ms, 20ms, 1h, 250 years, 2^63-1 ns} x maxInFlight in {0,1,3,8}; every call is bracketed by monotonic timestamps and each eviction decision is classified certainly-expired / certainly-fresh / uncertain (uncertain decisions accept either outcome). A second phase (concurrent-close) enumerates, with the controlled scheduler of C11, every interleaving of programs that push 2-3 sequences in descending order beside a Close: the groups one Close call delivers must come in ascending order. distinct_nontrivial = distinct histories (by text) with at least one certainly-expired or certainly-fresh decision, plus the concurrent-close programs.",
+		Rule: "cases = seeded histories of <= 12 ops (pushes of completing / non-completing / EOE records, real sleeps drawn from {0, T/2, 2T, 5T}, Maintain) followed by Close and 0-3 further Maintain/Close calls, for timeout T in {-2^63 ns, -1s, 0, 2ms, 5ms, 20ms, 1h, 250 years, 2^63-1 ns} x maxInFlight in {0,1,3,8}; every call is bracketed by monotonic timestamps and each eviction decision is classified certainly-expired / certainly-fresh / uncertain (uncertain decisions accept either outcome). A second phase (concurrent-close) enumerates, with the controlled scheduler of C11, every interleaving of programs that push 2-3 sequences in descending order beside a Close: the groups one Close call delivers must come in ascending order. A third phase (close-storm) runs free goroutines: 1-6 never-completing events are buffered, then 1-4 goroutines push lower, descending sequences while another calls Close; when all have returned every event buffered before Close was invoked has been delivered exactly once (4 000 / 400 000 rounds; the number of rounds in which the pushes straddled the flush is reported). distinct_nontrivial = distinct histories (by text) with at least one certainly-expired or certainly-fresh decision, plus the concurrent-close programs.",
 		Assumptions: []string{
 			"the library's time.Now() readings lie inside the harness's monotonic bracket of the same call (same process, same clock)",
 			"decisions that fall inside the uncertainty interval around an expiry instant are not decided (counted separately)",
@@ -257,11 +364,15 @@ func init() {
 			"a Maintain or Close made from inside a callback of the flushing Close counts as made 'afterwards' (the closed flag is set before the flush; C11 demands that exactly one Close succeeds, re-entrant ones included)",
 		},
 		Phases: func(string) []mon.PhaseSpec {
-			return []mon.PhaseSpec{{Name: "timed", Flavour: "plain"}, {Name: "concurrent-close", Flavour: "plain", Env: []string{"GOMAXPROCS=1"}}}
+			return []mon.PhaseSpec{{Name: "timed", Flavour: "plain"}, {Name: "concurrent-close", Flavour: "plain", Env: []string{"GOMAXPROCS=1"}}, {Name: "close-storm", Flavour: "plain"}}
 		},
 		Run: func(c *mon.Ctx) {
 			if c.Phase == "concurrent-close" {
 				c19ConcurrentClose(c)
+				return
+			}
+			if c.Phase == "close-storm" {
+				c19CloseStorm(c)
 				return
 			}
 			n := c.Pick(20000, 3000000)
@@ -349,6 +460,14 @@ func init() {
 						c.Violation("close:"+f.Sig, f.What, kase)
 					}
 				}
+				return
+			}
+			var sk struct {
+				Kind string `json:"kind"`
+			}
+			if json.Unmarshal(kase, &sk) == nil && sk.Kind == "close-storm" {
+				fmt.Println("replay: close-storm (schedule-dependent: the whole storm is repeated)")
+				c19CloseStorm(c)
 				return
 			}
 			var rk c19ReCase
